@@ -24,6 +24,10 @@ Hit(pat, id) == IF HasStar(pat) THEN StarMatch(pat, id) ELSE pat = id
 SelectInclude(inc, reg) ==
   Dedup(FlattenSeq([k \in 1..Len(inc) |-> SelectSeq(Ids(reg), LAMBDA id : Hit(inc[k], id))]))
 
+\* which result inputs put a run into SAST mode: "when Sonar issue files or SARIF files are supplied"
+InputKinds == {"none", "sonarIssues", "sarifSemgrep", "sarifOtherTool", "hotspotsOnly", "dojoOnly", "issuesAndHotspots"}
+SastMode(k) == k \in {"sonarIssues", "sarifSemgrep", "sarifOtherTool", "issuesAndHotspots"}
+
 \* eligibility by mode: tool-specific codemods iff SAST inputs were supplied
 Eligible(c, sast) == sast <=> (c.origin # "pixee")
 
